@@ -24,6 +24,7 @@ THEOREMS = [
     "timestep_order",
     "timestep_invariant",
     "free_refresh_spec",
+    "classification_meaning",
 ]
 
 RULE = ("generic samplers over four interaction families (two-site exchange-type rings/chains, Ising-symmetric diagonal + "
